@@ -1,1 +1,507 @@
-//! placeholder (filled below)
+//! Logical dump of a container through the real reader: pack list, indexes, entries, values,
+//! content sizes and hashes, check result. Every node may be `{"err": kind}` instead (lazy errors
+//! stay where they occur). Plus "rich" reference containers built from a DirSpec + contents.
+
+use crate::dirmodel::*;
+use crate::gen::Entropy;
+use crate::packs::*;
+use jubako as jbk;
+use jbk::reader::MayMissPack;
+use serde_json::{json, Map, Value as J};
+use std::path::{Path, PathBuf};
+use std::sync::Arc;
+
+pub fn err_node(e: impl std::fmt::Display) -> J {
+    json!({ "err": format!("{e}").chars().take(160).collect::<String>() })
+}
+
+pub fn is_err(j: &J) -> bool {
+    j.as_object().map(|o| o.len() == 1 && o.contains_key("err")).unwrap_or(false)
+}
+
+pub struct DumpOpts {
+    pub index_names: Vec<String>,
+    /// content packs ids to enumerate (each 0..count)
+    pub pack_ids: Vec<u16>,
+    /// also dump the manifest's pack infos (needs the container/manifest at offset 0 of the file)
+    pub with_manifest: bool,
+}
+
+fn entry_json(e: &ReadEntry) -> J {
+    let mut vals = Map::new();
+    for (k, v) in &e.vals {
+        vals.insert(k.clone(), v.to_json());
+    }
+    json!({"variant": e.variant, "values": vals})
+}
+
+pub fn dump_index(od: &OpenDir, name: &str) -> J {
+    let oi = match od.index(name) {
+        Err(e) => return err_node(e),
+        Ok(None) => return json!("no such index"),
+        Ok(Some(oi)) => oi,
+    };
+    use jbk::reader::Range;
+    let count = oi.count();
+    let mut entries = vec![];
+    for i in 0..count.min(100_000) {
+        entries.push(match oi.entry(i) {
+            Ok(Some(e)) => entry_json(&e),
+            Ok(None) => json!("none"),
+            Err(e) => err_node(e),
+        });
+    }
+    json!({
+        "offset": oi.index.offset().into_u32(),
+        "count": count,
+        "store": oi.index.get_store_id().into_u32(),
+        "header": format!("{:?}", oi.index),
+        "entries": entries,
+    })
+}
+
+pub fn dump_content(c: &jbk::reader::Container, pack: u16, idx: u32) -> J {
+    let a = jbk::ContentAddress::new(jbk::PackId::from(pack), jbk::ContentIdx::from(idx));
+    match c.get_bytes(a) {
+        Err(e) => err_node(e),
+        Ok(None) => json!("no such pack"),
+        Ok(Some(MayMissPack::MISSING(info))) => json!({"missing": {"pack_id": info.pack_id.into_u16(), "location": info.pack_location.as_str(), "uuid": info.uuid.to_string()}}),
+        Ok(Some(MayMissPack::FOUND(None))) => json!("no such content"),
+        Ok(Some(MayMissPack::FOUND(Some(region)))) => {
+            let size = region.size().into_u64();
+            match read_region(&region) {
+                Ok(b) => json!({"size": size, "blake3": blake3::hash(&b).to_hex().to_string(), "read": b.len()}),
+                Err(e) => json!({"size": size, "bytes": err_node(e)}),
+            }
+        }
+    }
+}
+
+pub fn pack_info_json(p: &jbk::reader::PackInfo) -> J {
+    json!({
+        "uuid": p.uuid.to_string(),
+        "size": p.pack_size.into_u64(),
+        "id": p.pack_id.into_u16(),
+        "kind": format!("{:?}", p.pack_kind),
+        "group": p.pack_group,
+        "free_data_id": p.free_data_id.into_u64(),
+        "location": p.pack_location.as_str(),
+        "check_info_pos": format!("{:?}", p.check_info_pos),
+    })
+}
+
+pub fn dump_manifest(path: &Path) -> J {
+    let cp = match jbk::tools::open_pack(path) {
+        Ok(c) => c,
+        Err(e) => return err_node(e),
+    };
+    let reader = match cp.get_manifest_pack_reader() {
+        Ok(Some(r)) => r,
+        Ok(None) => return json!("no manifest"),
+        Err(e) => return err_node(e),
+    };
+    let m = match jbk::reader::ManifestPack::new(reader) {
+        Ok(m) => m,
+        Err(e) => return err_node(e),
+    };
+    use jbk::Pack;
+    let infos: Vec<J> = m.get_pack_infos().iter().map(pack_info_json).collect();
+    let mut free = vec![];
+    for p in m.get_pack_infos() {
+        free.push(match m.get_pack_free_data_uuid(p.uuid) {
+            Ok(Some(d)) => json!(crate::hex(d)),
+            Ok(None) => json!(null),
+            Err(e) => err_node(e),
+        });
+    }
+    json!({
+        "uuid": m.uuid().to_string(),
+        "pack_count": m.pack_count().into_u16(),
+        "directory": pack_info_json(m.get_directory_pack_info()),
+        "packs": infos,
+        "packs_free_data": free,
+        "free_data": crate::hex(&*m.get_free_data()),
+        "size": m.size().into_u64(),
+        "check": match m.check() { Ok(b) => json!(b), Err(e) => err_node(e) },
+    })
+}
+
+/// Dump everything a reader can learn from the container at `path`.
+pub fn dump_container(path: &Path, opts: &DumpOpts) -> J {
+    let mut out = Map::new();
+    let c = match jbk::reader::Container::new(path) {
+        Ok(c) => c,
+        Err(e) => {
+            out.insert("open".into(), err_node(e));
+            return J::Object(out);
+        }
+    };
+    out.insert("open".into(), json!("ok"));
+    out.insert("pack_count".into(), json!(c.pack_count().into_u16()));
+    if opts.with_manifest {
+        out.insert("manifest".into(), dump_manifest(path));
+    }
+    {
+        use jbk::Pack;
+        let d = c.get_directory_pack();
+        out.insert(
+            "directory".into(),
+            json!({"free_data": crate::hex(d.get_free_data()), "size": d.size().into_u64(), "kind": format!("{:?}", d.kind()), "vendor": format!("{:?}", &*d.app_vendor_id())}),
+        );
+    }
+    let od = open_from(Arc::clone(c.get_directory_pack()));
+    let mut indexes = Map::new();
+    for n in &opts.index_names {
+        indexes.insert(n.clone(), dump_index(&od, n));
+    }
+    out.insert("indexes".into(), J::Object(indexes));
+    let mut contents = Map::new();
+    let mut packs = Map::new();
+    for &p in &opts.pack_ids {
+        let count = match c.get_pack(jbk::PackId::from(p)) {
+            Err(e) => {
+                packs.insert(p.to_string(), err_node(e));
+                continue;
+            }
+            Ok(None) => {
+                packs.insert(p.to_string(), json!("no such pack"));
+                continue;
+            }
+            Ok(Some(MayMissPack::MISSING(info))) => {
+                packs.insert(p.to_string(), json!({"missing": pack_info_json(&info)}));
+                // still probe content 0: must be reported missing
+                contents.insert(format!("{p}/0"), dump_content(&c, p, 0));
+                continue;
+            }
+            Ok(Some(MayMissPack::FOUND(pack))) => {
+                use jbk::Pack;
+                let n = pack.get_content_count().into_u32();
+                packs.insert(p.to_string(), json!({"content_count": n, "size": pack.size().into_u64(), "free_data": crate::hex(pack.get_free_data()), "uuid": pack.uuid().to_string()}));
+                n
+            }
+        };
+        for i in 0..count.min(20_000) {
+            contents.insert(format!("{p}/{i}"), dump_content(&c, p, i));
+        }
+        contents.insert(format!("{p}/{count}"), dump_content(&c, p, count));
+    }
+    out.insert("packs".into(), J::Object(packs));
+    out.insert("contents".into(), J::Object(contents));
+    out.insert(
+        "check".into(),
+        match c.check() {
+            Ok(b) => json!(b),
+            Err(e) => err_node(e),
+        },
+    );
+    J::Object(out)
+}
+
+/// Replace every uuid-looking string by its rank of first appearance (dumps of separately created
+/// containers become comparable).
+pub fn normalize_uuids(j: &mut J) {
+    fn looks(s: &str) -> bool {
+        s.len() == 36 && s.as_bytes()[8] == b'-' && s.as_bytes()[13] == b'-'
+    }
+    fn walk(j: &mut J, seen: &mut Vec<String>) {
+        match j {
+            J::String(s) if looks(s) => {
+                let r = match seen.iter().position(|x| x == s) {
+                    Some(r) => r,
+                    None => {
+                        seen.push(s.clone());
+                        seen.len() - 1
+                    }
+                };
+                *s = format!("uuid#{r}");
+            }
+            J::Array(a) => a.iter_mut().for_each(|x| walk(x, seen)),
+            J::Object(o) => o.iter_mut().for_each(|(_, x)| walk(x, seen)),
+            _ => {}
+        }
+    }
+    walk(j, &mut vec![]);
+}
+
+#[derive(Debug, Clone)]
+pub struct Diff {
+    pub path: String,
+    pub pristine: String,
+    pub altered: String,
+}
+
+/// Node-by-node comparison: a node of `altered` that is an error node is fine; anything else
+/// must equal the pristine node. Returns the differing (non-error) nodes.
+pub fn compare(pristine: &J, altered: &J, path: &str, out: &mut Vec<Diff>) {
+    if is_err(altered) {
+        return;
+    }
+    match (pristine, altered) {
+        (J::Object(a), J::Object(b)) => {
+            for (k, va) in a {
+                // a node absent from the altered dump is the consequence of an error recorded
+                // higher up or next to it (counts and lengths are always present, so a reader that
+                // silently returns fewer things is still seen through them)
+                if let Some(vb) = b.get(k) {
+                    compare(va, vb, &format!("{path}/{k}"), out)
+                }
+            }
+            for (k, vb) in b {
+                if !a.contains_key(k) && !is_err(vb) {
+                    out.push(Diff { path: format!("{path}/{k}"), pristine: "<absent>".into(), altered: short(vb) });
+                }
+            }
+        }
+        (J::Array(a), J::Array(b)) => {
+            if a.len() != b.len() {
+                out.push(Diff { path: format!("{path}/#len"), pristine: a.len().to_string(), altered: b.len().to_string() });
+            }
+            for (i, (va, vb)) in a.iter().zip(b.iter()).enumerate() {
+                compare(va, vb, &format!("{path}/{i}"), out);
+            }
+        }
+        (a, b) => {
+            if a != b {
+                out.push(Diff { path: path.to_string(), pristine: short(a), altered: short(b) });
+            }
+        }
+    }
+}
+
+fn short(j: &J) -> String {
+    let s = j.to_string();
+    if s.len() > 200 {
+        format!("{}…", &s[..200])
+    } else {
+        s
+    }
+}
+
+// ------------------------------------------------------------------ rich reference containers
+
+/// A logical container: contents (for pack 1, and extra packs 2..), a directory spec whose
+/// `Val::C(pack, idx)` values point at them.
+#[derive(Clone, Debug)]
+pub struct Logical {
+    pub name: String,
+    pub contents: Vec<Item>,
+    pub extra_packs: Vec<Vec<Item>>,
+    pub dir: DirSpec,
+}
+
+struct SpecEntries(DirSpec);
+impl jbk::creator::EntryStoreTrait for SpecEntries {
+    fn finalize(self: Box<Self>, directory_pack: &mut jbk::creator::DirectoryPackCreator) {
+        populate(&self.0, None, directory_pack);
+    }
+}
+
+pub fn shape(name: &str) -> Logical {
+    let item = |len, entropy, hint, tag| Item { len, entropy, hint, src: Src::Memory, tag };
+    match name {
+        // one content, one plain column set
+        "small" => Logical {
+            name: name.into(),
+            contents: vec![item(40, Entropy::Low, Hint::Detect, 1)],
+            extra_packs: vec![],
+            dir: DirSpec {
+                schema: SchemaSpec { stores: vec![StoreKind::Plain], common: vec![PropSpec::A { prefix: 2, store: 0 }, PropSpec::U, PropSpec::C], variants: vec![], sort: None },
+                entries: vec![
+                    EntrySpec { variant: None, vals: vec![Val::A(b"hello".to_vec()), Val::U(7), Val::C(1, 0)] },
+                    EntrySpec { variant: None, vals: vec![Val::A(b"he".to_vec()), Val::U(300), Val::C(1, 0)] },
+                ],
+                indexes: vec![IndexSpec { name: "main".into(), offset: 0, count: 2 }],
+            },
+        },
+        // raw + compressed clusters, variants, two value stores, two indexes
+        "multi" | "big" => {
+            let big = name == "big";
+            let mut contents = vec![
+                item(3000, Entropy::Low, Hint::Yes, 1),
+                item(700, Entropy::High, Hint::No, 2),
+                item(0, Entropy::Low, Hint::Detect, 3),
+                item(1200, Entropy::Low, Hint::Yes, 4),
+                item(5, Entropy::High, Hint::No, 5),
+            ];
+            if big {
+                contents.push(item(9000, Entropy::Low, Hint::Yes, 6));
+                contents.push(item(6000, Entropy::High, Hint::No, 7));
+            }
+            let n_entries = if big { 400 } else { 6 };
+            let entries: Vec<EntrySpec> = (0..n_entries)
+                .map(|i| {
+                    let v = i % 3;
+                    let mut vals = vec![
+                        Val::A(format!("name-{i:03}").into_bytes()),
+                        Val::U((i as u64) * 100),
+                        Val::S(-(i as i64) * 50 + 3),
+                    ];
+                    match v {
+                        0 => vals.push(Val::C(1, (i % contents.len()) as u32)),
+                        1 => {
+                            vals.push(Val::A(format!("t{}", i % 4).into_bytes()));
+                            vals.push(Val::U(i as u64 % 2));
+                        }
+                        _ => {}
+                    }
+                    EntrySpec { variant: Some(v), vals }
+                })
+                .collect();
+            Logical {
+                name: name.into(),
+                contents,
+                extra_packs: vec![],
+                dir: DirSpec {
+                    schema: SchemaSpec {
+                        stores: vec![StoreKind::Plain, StoreKind::Indexed],
+                        common: vec![PropSpec::A { prefix: 1, store: 0 }, PropSpec::U, PropSpec::S],
+                        variants: vec![vec![PropSpec::C], vec![PropSpec::A { prefix: 0, store: 1 }, PropSpec::U], vec![]],
+                        sort: None,
+                    },
+                    entries,
+                    indexes: vec![
+                        IndexSpec { name: "all".into(), offset: 0, count: n_entries as u32 },
+                        IndexSpec { name: "window".into(), offset: 1, count: 3 },
+                    ],
+                },
+            }
+        }
+        other => panic!("unknown shape {other}"),
+    }
+}
+
+pub struct CreatedLogical {
+    /// entry point
+    pub path: PathBuf,
+    /// every file that belongs to the container (entry point first)
+    pub files: Vec<PathBuf>,
+}
+
+fn add_items<A: jbk::creator::ContentAdder + ?Sized>(adder: &mut A, items: &[Item]) -> Result<(), String> {
+    for it in items {
+        adder
+            .add_content(Box::new(std::io::Cursor::new(it.bytes())), it.hint.to_jbk())
+            .map_err(|e| format!("add_content: {e}"))?;
+    }
+    Ok(())
+}
+
+/// Create the logical container with BasicCreator (extra packs as separate bare files).
+pub fn create_logical(l: &Logical, comp: Comp, packaging: Packaging, dir: &Path, stem: &str) -> Result<CreatedLogical, String> {
+    let r = crate::catch(|| -> Result<CreatedLogical, String> {
+        let path = dir.join(format!("{stem}.jbk"));
+        let p = camino::Utf8PathBuf::from_path_buf(path.clone()).unwrap();
+        let cm = match packaging {
+            Packaging::OneFile => jbk::creator::ConcatMode::OneFile,
+            Packaging::TwoFiles => jbk::creator::ConcatMode::TwoFiles,
+            Packaging::NoConcat => jbk::creator::ConcatMode::NoConcat,
+            Packaging::Bare => return Err("bare is not a container packaging".into()),
+        };
+        let mut creator = jbk::creator::BasicCreator::new(&p, cm, jbk::VendorId::from(VENDOR), comp.to_jbk(), Arc::new(()))
+            .map_err(|e| format!("creator: {e}"))?;
+        add_items(&mut creator, &l.contents)?;
+        let mut extras: Vec<jbk::creator::ContentPackCreator<dyn jbk::creator::PackRecipient>> = vec![];
+        let mut files = vec![path.clone()];
+        for (k, items) in l.extra_packs.iter().enumerate() {
+            let ep = dir.join(format!("{stem}.extra{}.jbkc", k + 2));
+            let up = camino::Utf8PathBuf::from_path_buf(ep.clone()).unwrap();
+            let file: Box<dyn jbk::creator::PackRecipient> =
+                jbk::creator::AtomicOutFile::new(&up).map_err(|e| format!("extra file: {e}"))?;
+            let mut c = jbk::creator::ContentPackCreator::<dyn jbk::creator::PackRecipient>::new_from_output(
+                file,
+                jbk::PackId::from((k + 2) as u16),
+                jbk::VendorId::from(VENDOR),
+                Default::default(),
+                comp.to_jbk(),
+            )
+            .map_err(|e| format!("extra creator: {e}"))?;
+            add_items(&mut c, items)?;
+            files.push(ep);
+            extras.push(c);
+        }
+        creator
+            .finalize(Box::new(SpecEntries(l.dir.clone())), extras)
+            .map_err(|e| format!("finalize: {e}"))?;
+        match packaging {
+            Packaging::TwoFiles => files.push(path.with_extension("jbkc")),
+            Packaging::NoConcat => {
+                files.push(path.with_extension("jbkc"));
+                // BasicCreator names the directory file with set_extension(".jbkd")
+                let mut d = p.clone();
+                d.set_extension(".jbkd");
+                files.push(d.into_std_path_buf());
+            }
+            _ => {}
+        }
+        Ok(CreatedLogical { path, files })
+    });
+    match r {
+        Ok(x) => x,
+        Err(p) => Err(format!("panic {p}")),
+    }
+}
+
+/// The model's dump of a logical container: what `dump_container` must return for it.
+pub fn opts_for(l: &Logical) -> DumpOpts {
+    DumpOpts {
+        index_names: l.dir.indexes.iter().map(|i| i.name.clone()).collect(),
+        pack_ids: (1..=(1 + l.extra_packs.len() as u16)).chain([99u16]).collect(),
+        with_manifest: false,
+    }
+}
+
+/// Expected dump (subset that the model defines): indexes/entries/values and contents.
+pub fn model_dump(l: &Logical) -> J {
+    let mut indexes = Map::new();
+    for ix in &l.dir.indexes {
+        let entries: Vec<J> = (0..ix.count)
+            .map(|i| entry_json(&expected_entry(&l.dir, (ix.offset + i) as usize, &|k| k as u64)))
+            .collect();
+        indexes.insert(ix.name.clone(), json!({"offset": ix.offset, "count": ix.count, "entries": entries}));
+    }
+    let mut contents = Map::new();
+    let mut all: Vec<(u16, &Vec<Item>)> = vec![(1, &l.contents)];
+    for (k, e) in l.extra_packs.iter().enumerate() {
+        all.push(((k + 2) as u16, e));
+    }
+    for (p, items) in all {
+        for (i, it) in items.iter().enumerate() {
+            let b = it.bytes();
+            contents.insert(format!("{p}/{i}"), json!({"size": b.len(), "blake3": blake3::hash(&b).to_hex().to_string(), "read": b.len()}));
+        }
+        contents.insert(format!("{p}/{}", items.len()), json!("no such content"));
+    }
+    json!({"open": "ok", "indexes": indexes, "contents": contents, "check": true})
+}
+
+/// Compare the model-defined part of a dump: every node the model defines must be equal.
+pub fn compare_with_model(model: &J, dump: &J) -> Vec<Diff> {
+    fn walk(m: &J, d: &J, path: &str, out: &mut Vec<Diff>) {
+        match (m, d) {
+            (J::Object(a), J::Object(b)) => {
+                for (k, va) in a {
+                    match b.get(k) {
+                        Some(vb) => walk(va, vb, &format!("{path}/{k}"), out),
+                        None => out.push(Diff { path: format!("{path}/{k}"), pristine: short(va), altered: "<absent>".into() }),
+                    }
+                }
+            }
+            (J::Array(a), J::Array(b)) => {
+                if a.len() != b.len() {
+                    out.push(Diff { path: format!("{path}/#len"), pristine: a.len().to_string(), altered: b.len().to_string() });
+                }
+                for (i, (va, vb)) in a.iter().zip(b.iter()).enumerate() {
+                    walk(va, vb, &format!("{path}/{i}"), out);
+                }
+            }
+            (a, b) => {
+                if a != b {
+                    out.push(Diff { path: path.to_string(), pristine: short(a), altered: short(b) });
+                }
+            }
+        }
+    }
+    let mut out = vec![];
+    walk(model, dump, "", &mut out);
+    out
+}
